@@ -66,14 +66,19 @@ def obligations(tier):
     t = 90 if q else 600
     obs = []
 
-    # ---- reader: arbitrary bytes
-    for n in ((3,) if q else (3, 4)):
-        for f, fname in FOCUS:
-            obs.append(Ob(f'C13.dechunk.bytes{n}.{fname}', 'harness.C13', 'dechunk_bytes', bind={'maxlen': n, 'focus': f}, timeout=t,
-                          twin=(f == 0 and n == 3), functions=READER, stubs=[S_STREAM],
-                          bounds=f'every byte string of length <= {n} as chunked body (symbolic bytes)',
-                          claim='_read_dechunk never reads a drained stream forever' if f == 0 else
-                          '_read_dechunk returns bytes or raises DechunkError, no other exception'))
+    # ---- reader: arbitrary bytes (3 bytes is the longest CrossHair exhausts: int(bytes, 16) concretises the size field)
+    for f, fname in FOCUS:
+        obs.append(Ob(f'C13.dechunk.bytes3.{fname}', 'harness.C13', 'dechunk_bytes', bind={'maxlen': 3, 'focus': f}, timeout=t,
+                      twin=(f == 0), functions=READER, stubs=[S_STREAM],
+                      bounds='every byte string of length <= 3 as chunked body (symbolic bytes)',
+                      claim='_read_dechunk never reads a drained stream forever' if f == 0 else
+                      '_read_dechunk returns bytes or raises DechunkError, no other exception'))
+    if not q:
+        for t0 in range(9):
+            obs.append(Ob(f'C13.dechunk.tokens.t{t0}', 'harness.C13', 'dechunk_tokens', bind={'t0': t0, 'focus': 2}, timeout=t,
+                          twin=(t0 == 4), functions=READER, stubs=[S_STREAM],
+                          bounds='byte strings of <= 5 tokens from ("", CRLF, CR, LF, "0", "1", ";", "-", "x"), first token fixed',
+                          claim='_read_dechunk terminates with bytes or DechunkError'))
     n = 6 if q else 9
     obs.append(Ob(f'C13.read_until.bytes{n}', 'harness.C13', 'read_until_bytes', bind={'maxlen': n}, timeout=t, functions=READER[1:],
                   stubs=[S_STREAM], bounds=f'every byte string of length <= {n} (symbolic bytes)',
@@ -179,7 +184,7 @@ MANIFEST_ENTRY = {
                  'mutations of valid chunked messages (spin detector in the stream stub); exhaustive path exploration of the real '
                  'request handler, path registry, middleware and dispatcher over selector-chosen targets, framings and stubbed '
                  'reader/handler outcomes',
-    'text': 'For every byte string up to 3 (thorough 4) bytes and every single-point mutation/truncation of small valid chunked '
+    'text': 'For every byte string up to 3 bytes (thorough: also every string of <= 5 framing tokens) and every single-point mutation/truncation of small valid chunked '
             'messages, _read_dechunk terminates with bytes or DechunkError; for the cross product of framing headers the body '
             'readers terminate with bytes or a documented rejection; for every request target of <= 4 tokens and every '
             'combination of reader/dispatcher/handler outcome do_POST/do_GET produce exactly one status line and let no exception '
